@@ -21,6 +21,26 @@ def run(res):
            env={"L1_BIAS": "resend", "L1_PER_WORKER": "60", "L1_PER_TIMED_WORKER": "30"},
            check_fn="c18_check", ambig_fn="c18_ambiguous")
     res.coverage["protocols"] = ["xpair", "xpush", "xpull", "xpub", "xreq", "xbus", "req", "rep", "respondent"]
+    # best effort on EVERY protocol that has the option (the history machines above drive nine of them): a stalled peer,
+    # the smallest queues, BEST-EFFORT together with a long SEND-DEADLINE -- every Send returns at once
+    out, defs, (rc, so, se) = core.gen_and_eval("C18_be", "c18be",
+        "From Coq Require Import String.\nFrom Coq Require Import List NArith Bool.\nImport ListNotations.\nFrom MV Require Import Lib.Check.\n"
+        "Open Scope string_scope. Open Scope N_scope. Open Scope list_scope.\n",
+        "Definition be_ok (c : string * N * N * list N * N) : bool := let '(_, _, _, ds, errs) := c in\n"
+        "  negb (match ds with [] => true | _ => false end) && forallb (fun d => d <? 100) ds && (errs =? 0).\n"
+        "Definition bad_be := Eval vm_compute in bad_idx be_ok be_cases.\nPrint bad_be.\n")
+    if out is None:
+        res.violation("be:harness-abort", "the best-effort harness did not complete on the current tree (rc=%d): %s" % (rc, se[-600:]),
+                      {"stderr": se[-3000:]}, found_input=("panic:" in se or "WATCHDOG" in se))
+    else:
+        from .c20 import items
+        its = items(open(defs).read(), "be_cases")
+        res.coverage["best_effort_cases"] = len(its)
+        for i in (core.parse_nlist(core.parse_printed(out, "bad_be")) or [])[:4]:
+            res.violation("be:%s" % (its[i].split(",")[0].strip('("') if i < len(its) else "?"),
+                          "a best-effort Send to a stalled peer blocked (>= 100 ms) or failed: (protocol, SEND-DEADLINE ms, WRITEQ-LEN, duration of each of 6 sends in ms, errors) = %s; "
+                          "Model/Deadline.v best_effort_never_blocks: the only outcomes are Done and Dropped" % (its[i] if i < len(its) else "?"),
+                          {"case": its[i] if i < len(its) else "?", "how": "harness/cmd/c18be: mock pipe with held transport send, BEST-EFFORT true"})
     res.coverage["trusted_base"] = core.COQ_TRUSTED + [
         "hand-written models Model/Deadline.v (select idiom; queue sockets xpair, xpush, xpull, xpub, xreq, xbus), Model/DeadlineCtx.v (rep, respondent with contexts) and Model/Req.v tied by correspondence at "
         "quiescence granularity; where Go's select may take either of two ready arms (best-effort Send with room: queue or drop) the checker keeps both candidates",
